@@ -80,6 +80,8 @@ theorem castU32i_ofNat {n : Nat} (h : n < 4294967296) : castU32i (Int.ofNat n) =
   have : (Int.ofNat n) % 4294967296 = Int.ofNat n := Int.emod_eq_of_lt (by simp) (by simp; omega)
   rw [this]; rfl
 
+theorem castU32i_natCast {n : Nat} (h : n < 4294967296) : castU32i (n : Int) = n := castU32i_ofNat h
+
 theorem castU32i_of_range {t : Int} (h0 : 0 ≤ t) (h1 : t < 4294967296) : Int.ofNat (castU32i t) = t := by
   unfold castU32i
   rw [Int.emod_eq_of_lt h0 h1]
